@@ -290,6 +290,20 @@ def execute(sim, scn):
         if ev[1] == "tx":
             txpos[(ev[2], ev[3])] = pos
 
+    # deliveries to the server per source endpoint, with their position in the event log
+    entry_of = {(e["link"], e["idx"]): e for e in wire}
+    rx_from = {}
+    first_pos = {}
+    for pos, ev in enumerate(sim.events):
+        if ev[1] == "rx" and ev[5]:
+            e = entry_of.get((ev[2], ev[3]))
+            if e is None or e["dst"] != srv:
+                continue
+            first_pos.setdefault((e["src"], e["data"]), pos)
+            rx_from.setdefault(e["src"], []).append((pos, ev[0], e, e["data"], first_pos[(e["src"], e["data"])]))
+    for ob in observers.values():
+        rx_from.setdefault(ob.addr, [])
+
     for oid, ob in observers.items():
         E, T = ob.addr, ob.token
         regs = [r for r in reg_log if r["remote"] == E and r["token"] == T]
@@ -299,9 +313,11 @@ def execute(sim, scn):
         new = []
         seen = set()
         for e in sent:
-            if e["msg"]["mid"] in seen:
+            # retransmissions are byte-identical copies; (a piggybacked response carries the observer's message ID,
+            # which may coincide with one of the server's own)
+            if e["data"] in seen:
                 continue
-            seen.add(e["msg"]["mid"])
+            seen.add(e["data"])
             new.append(e)
         # give-ups of any CON the server sent to this endpoint: a transport-level failure for the observer
         giveups = []
@@ -354,12 +370,11 @@ def execute(sim, scn):
             con_mids = {e["msg"]["mid"] for e in mine if e["msg"]["type"] == rc.CON}
             non_mids = {e["msg"]["mid"] for e in mine if e["msg"]["type"] == rc.NON}
             non_rst = None
-            first_seen = {}
-            for (t, e, data) in deliveries_to_srv:
-                if e["src"] != E:
-                    continue
-                first_seen.setdefault(data, t)
-                if t < t0 - TOL or t >= t1 + TOL:
+            pos0 = reg["pos"]
+            pos1 = regs[ri + 1]["pos"] if ri + 1 < len(regs) else (1 << 60)
+            for (rxp, t, e, data, firstp) in rx_from[E]:
+                # only what arrived while this registration was the current one (event-log order, not float time)
+                if rxp <= pos0 or rxp > pos1:
                     continue
                 m = _dec(data)
                 if m is None:
@@ -368,8 +383,8 @@ def execute(sim, scn):
                     ends.append((t, "rst"))
                 if m["type"] == rc.RST and m["mid"] in non_mids and non_rst is None:
                     non_rst = t
-                if 1 <= m["code"] < 32 and m["token"] == T and t > t0 + TOL:
-                    if first_seen[data] < t - TOL:
+                if 1 <= m["code"] < 32 and m["token"] == T:
+                    if firstp < rxp:
                         continue  # a copy of an earlier request (same MID): de-duplicated by the message layer
                     ob1 = rc.opt1(m, rc.OBSERVE)
                     ends.append((t, "deregister" if (ob1 is not None and rc.uint_value(ob1) == 1) else "new_request"))
